@@ -978,11 +978,11 @@ func validateCredential(vc *Credential, vcBytes []byte, vcOpts *credentialOpts) 
 }
 
 func (vc *Credential) validateBaseContext(vcBytes []byte, vcOpts *credentialOpts) error {
-	if len(vc.Types) > 1 || vc.Types[0] != vcType {
+	if len(vc.Types) != 1 || vc.Types[0] != vcType {
 		return errors.New("violated type constraint: not base only type defined")
 	}
 
-	if len(vc.Context) > 1 || vc.Context[0] != baseContext {
+	if len(vc.Context) != 1 || vc.Context[0] != baseContext {
 		return errors.New("violated @context constraint: not base only @context defined")
 	}
 
